@@ -51,4 +51,17 @@ Theorem C19_unix_is_api : forall ops, Forall op_nn ops ->
   map emb_out (snd (u_run u_init ops)) = snd (a_run a_init (map emb_op ops)).
 Proof. intros ops H. rewrite unix_refines_ideal. symmetry. now apply api_conservative. Qed.
 Print Assumptions C19_unix_is_api.
+
+(* a client that connected and went away without sending a message (no reference to the sending end left anywhere, nothing queued):
+   accept neither blocks nor panics - it reports 'disconnected', the server is consumed, its receiving end released, and the
+   invariant (hence: nothing stays behind once the remaining handles are dropped) goes on holding.  This is what every transport
+   has to answer; the in-process one did not before the twelfth fix *)
+Theorem C19_api_accept_departed_client : forall s sh c, a_inv s ->
+  lookup (ah s) sh = Some (OSrv c true) -> q (get_chan (ak s) c) = [] -> refs (ak s) (RS c) = 0 ->
+  snd (a_step s (AAccept sh)) = QDisconnected /\
+  lookup (ah (fst (a_step s (AAccept sh)))) sh = Some OGone /\
+  ak (fst (a_step s (AAccept sh))) = k_close (ak s) (RR c) /\
+  a_inv (fst (a_step s (AAccept sh))).
+Proof. exact accept_of_a_departed_client. Qed.
+Print Assumptions C19_api_accept_departed_client.
 End ApiLevel.
